@@ -25,7 +25,7 @@ From BU Require Model.PyText Model.SubstrateScale Model.Bip32Path Model.Substrat
 From BU Require Model.Bip39 Model.Seeds Gen.WlBip39.
 From BU Require Model.MnemWords Model.ChunkMnemonic Model.MoneroMnemonic Model.AlgorandMnemonic Model.ElectrumV1Mnemonic
                 Model.ElectrumV2Mnemonic Gen.MnemConsts Gen.MnemLangs Gen.WlMnem_Ev1.
-From BU Require Model.Bip32Data Model.Bip32Ser Model.Slip32 Model.WifCodec Model.Bip38 Gen.SerbipConsts.
+From BU Require Model.Bip32Data Model.Bip32Ser Model.Slip32 Model.WifCodec Model.Bip38 Gen.SerbipConsts Lemmas.WifCodec.
 From BU Require Model.Ed25519Lib Model.EccAdapter Gen.Ecc.
 From BU Require Model.Bip32Slip10 Gen.DerivConsts.
 From BU Require Model.AddrUtils Model.AddrB58 Model.AddrText Model.SplToken Model.ElectrumWallet.
@@ -301,23 +301,16 @@ Theorem slip32_deserialize_no_escape : forall (bech_dec : list N -> list N -> re
 Proof. intros d s v H. exact (NoEscapeSer.slip32_deserialize_family d H s v). Qed.
 Print Assumptions slip32_deserialize_no_escape.
 
-(* WifDecoder.Decode(str, net_ver).
-   FULL-STRENGTH statement, FALSE of the (faithful) model and of the code -- finding C14-WIF-NETVER:
-     forall s net_ver, in_family (wif_decode ... s net_ver) = true.
-   ord(net_ver) raises TypeError whenever net_ver is not exactly one byte and the Base58Check payload is non-empty. *)
-Theorem wif_decode_no_escape_partial : forall (sha256 : list N -> list N) s nv,
-  in_family (WifCodec.wif_decode b58_alph_btc b58_radix b58_cklen sha256 s [nv]) = true.
+(* WifDecoder.Decode(str, net_ver), every string and every net_ver byte string (finding C14-WIF-NETVER, the
+   TypeError of ord() on a net_ver that is not one byte, is repaired in /repo: ValueError before decoding) *)
+Theorem wif_decode_no_escape : forall (sha256 : list N -> list N) s nv,
+  in_family (WifCodec.wif_decode b58_alph_btc b58_radix b58_cklen sha256 s nv) = true.
 Proof. intros. exact (NoEscapeSer.wif_decode_family _ _ _ _ _ _). Qed.
-Print Assumptions wif_decode_no_escape_partial.
-Theorem wif_decode_net_ver_escapes : forall (sha256 : list N -> list N) s nv b0 rest,
-  check_decode b58_alph_btc b58_radix b58_cklen sha256 s = Ok (b0 :: rest) -> length nv <> 1%nat ->
-  WifCodec.wif_decode b58_alph_btc b58_radix b58_cklen sha256 s nv = Err TypeError.
-Proof. intros sha256 s nv b0 rest. exact (NoEscapeSer.wif_decode_bad_net_ver _ _ _ sha256 s nv b0 rest). Qed.
-Print Assumptions wif_decode_net_ver_escapes.
-Theorem wif_decode_no_escape_refuted : exists (sha256 : list N -> list N) s nv,
-  in_family (WifCodec.wif_decode b58_alph_btc b58_radix b58_cklen sha256 s nv) = false.
-Proof. exact NoEscapeSer.wif_decode_net_ver_refuted. Qed.
-Print Assumptions wif_decode_no_escape_refuted.
+Print Assumptions wif_decode_no_escape.
+Theorem wif_decode_bad_net_ver : forall (sha256 : list N -> list N) s nv, length nv <> 1%nat ->
+  WifCodec.wif_decode b58_alph_btc b58_radix b58_cklen sha256 s nv = Err ValueError.
+Proof. intros sha256 s nv. exact (Lemmas.WifCodec.wif_decode_bad_version_arg _ _ _ sha256 s nv). Qed.
+Print Assumptions wif_decode_bad_net_ver.
 
 (* Bip38Decrypter.DecryptNoEc(str, passphrase) *)
 Theorem bip38_noec_decrypt_no_escape : forall (sha256 nfc : list N -> list N) (utf8 : list N -> res (list N))
